@@ -259,7 +259,12 @@ impl<R: Rng + Send> Multiplexor<R> {
                 datagram_tx,
                 bnd_request_tx,
                 keepalive_interval: options.keepalive_interval,
-                keepalive_timeout: options.keepalive_timeout,
+                // Whatever the order in which the two options were set
+                keepalive_timeout: if options.keepalive_interval == timing::OptionalDuration::NONE {
+                    options.keepalive_timeout
+                } else {
+                    options.keepalive_timeout.max(options.keepalive_interval)
+                },
             },
             dropped_flows_rx,
             tx_msg_rx,
